@@ -127,6 +127,11 @@ def build_array(col, n):
         return pd.Categorical.from_codes(codes, categories=cindex, ordered=bool(col.get("ordered")))
     if kind == "nullable":
         return pd.array([pd.NA if v is MISSING else v for v in vals], dtype=col["sub"])
+    if kind == "pyobj":
+        a = np.empty(n, dtype=object)
+        conv = {"int": int, "bool": bool, "float": float}[col["sub"]]
+        a[:] = [None if v is MISSING else conv(v) for v in vals]
+        return a
     raise ValueError(kind)
 
 
@@ -162,6 +167,10 @@ def canon_value(col, v):
         return int(v)
     if kind == "nullable":
         return bool(v) if col["sub"] == "boolean" else int(v)
+    if kind == "pyobj":
+        if col["sub"] == "float":
+            return float(v).hex()
+        return bool(v) if col["sub"] == "bool" else int(v)
     if kind == "float":
         f = float(np.float32(v)) if col["sub"] == "float32" else float(v)
         return MISSING if f != f else f.hex()
